@@ -864,7 +864,53 @@ PROPS = {'C01': c01, 'C08': c08, 'C10': c10, 'C15': c15, 'C09': c09, 'C12': c12,
 
 
 def replay(ctx, path):
+    """Re-run one recorded case against the CURRENT tree.  Replays that carry a grammar are re-generated with the real generator and
+    compared again (T-emit: emitted program vs model; T-run: compiled parser vs model vs PEG semantics on the recorded input);
+    other replays (set operation sequences, CLI scenarios, diagnostics, proof obligations) are printed with the command that
+    re-runs their tie."""
     with open(path) as fh:
         r = json.load(fh)
-    print(json.dumps(r, indent=1, ensure_ascii=False)[:4000])
+    case = r.get('case') or r.get('detail') or {}
+    print(json.dumps({k: v for k, v in r.items() if k not in ('case', 'detail')}, indent=1, ensure_ascii=False)[:1500])
+    text, opts = case.get('grammar'), case.get('opts')
+    if not isinstance(text, str) or opts is None:
+        print(json.dumps(case, indent=1, ensure_ascii=False)[:3000])
+        print('replay: this record has no grammar; re-run its tie with: bin/check %s --tier %s' % (ctx.pid, ctx.tier))
+        return 0
+    T = ctx.T()
+    x = T.run_pegx([{'id': 'r', 'text': text, 'opts': opts, 'tree': True, 'compile': True, 'ir': True, 'src': True}])[0]
+    bad = 0
+    if not x.get('compiled'):
+        print('replay: the generator fails on the grammar: %s' % str({k: v for k, v in x.items() if k not in ('tree', 'go', 'ir')})[:400])
+        bad = 1
+    if x.get('tree'):
+        m = T.run_model('emit', [{'id': 'r', 'tree': x['tree'], 'opts': opts}])[0]
+        if x.get('ir') and m.get('rules') is not None:
+            d = L.ir_diff(x['ir'], m) or L.header_diff(x['ir']['header'], m.get('header'), opts)
+            print('replay T-emit: %s' % ('emitted program = model program' if d is None else 'DIFFERS: ' + d[:400]))
+            bad |= d is not None
+    inp = case.get('input')
+    if x.get('compiled') and inp is not None and case.get('entry'):
+        M = L.RunModule()
+        M.add('rp0', x['go'], 'n' not in opts)
+        if 'rp0' in set(M.build(exclude=M.vet())):
+            memo = case.get('memo') if case.get('memo') is not None else True
+            ro = M.run([{'pkg': 'rp0', 'k': 'k', 'entry': case['entry'], 'memo': memo, 'b64': L.b64(inp)}]).get('k') or {}
+            mo = T.run_model('run', [{'id': 'r', 'tree': x['tree'], 'opts': opts,
+                                      'cases': [{'k': 'k', 'entry': case['entry'], 'memo': memo, 'bytes': L.bytes_of(inp), 'spec': True}]}])[0]
+            ob = (mo.get('obs') or [{}])[0]
+            for which in ('model', 'spec'):
+                d = L.obs_equal(ro, ob.get(which) or {}, 'n' not in opts)
+                print('replay T-run: real vs %s on input %r: %s' % (which, inp, 'equal' if not d else 'DIFFERS on %s' % d))
+                bad |= bool(d) and not (which == 'spec' and (ob.get('spec') or {}).get('v') == 'nofuel')
+            print(' real : %s' % json.dumps(ro, ensure_ascii=False)[:600])
+            print(' spec : %s' % json.dumps(ob.get('spec'), ensure_ascii=False)[:600])
+        else:
+            print('replay: the emitted parser does not build')
+            bad = 1
+    L.cleanup()
+    if bad:
+        print('VIOLATION property=%s replay=%s' % (ctx.pid, path))
+        return 1
+    print('replay: the recorded case no longer fails on the current tree')
     return 0
